@@ -132,6 +132,84 @@ fn run_case(case: &Val) -> Val {
             left.sort_by_key(|v| v.to_string());
             Val::L(vec![Val::L(vals), Val::b(eor_after_routes), Val::L(left)])
         }
+        3 => {
+            // [3, router_id, local_asn]: the Peer Up of the Loc-RIB virtual peer (RFC 9069)
+            let m = loc_rib_peer_up(mon::v4_of(&l[1]), l[2].u32());
+            let mut buf = bytes::BytesMut::new();
+            codec.encode(&m, &mut buf).expect("verif: bmp encode");
+            match &m {
+                bmp::Message::PeerUp {
+                    local_addr,
+                    local_port,
+                    remote_port,
+                    local_open,
+                    remote_open,
+                    ..
+                } => Val::L(vec![
+                    Val::from_bytes(&buf),
+                    Val::L(vec![
+                        Val::from_bytes(&mon::ref_encode(local_open, false)),
+                        Val::from_bytes(&mon::ref_encode(remote_open, false)),
+                    ]),
+                    mon::ip_val(local_addr),
+                    Val::n(*local_port),
+                    Val::n(*remote_port),
+                    mon::msg_val(local_open),
+                    mon::msg_val(remote_open),
+                ]),
+                _ => Val::L(vec![Val::I(-9)]),
+            }
+        }
+        4 => {
+            // [4, reason, header]: session_down_to_bmp, then the Peer Down the live loop builds
+            // reason: [] none | [0] hold timer | [1, notification] remote | [2, notification] local
+            //         | [3] fsm error | [4] admin shutdown | [5] io error
+            let r = l[1].list();
+            let reason = if r.is_empty() {
+                None
+            } else {
+                Some(match r[0].int() {
+                    0 => crate::fsm::SessionDownReason::HoldTimerExpired,
+                    1 => crate::fsm::SessionDownReason::RemoteNotification(mon::msg_of(&r[1])),
+                    2 => crate::fsm::SessionDownReason::LocalNotification(mon::msg_of(&r[1])),
+                    3 => crate::fsm::SessionDownReason::FsmError,
+                    4 => crate::fsm::SessionDownReason::AdminShutdown,
+                    5 => crate::fsm::SessionDownReason::IoError,
+                    t => panic!("verif: bad session-down reason {}", t),
+                })
+            };
+            let reason = session_down_to_bmp(reason);
+            let (code, blob, fsm) = match &reason {
+                bmp::PeerDownReason::LocalNotification(m) => (1, mon::ref_encode(m, false), -1),
+                bmp::PeerDownReason::LocalFsm(c) => (2, vec![], *c as i128),
+                bmp::PeerDownReason::RemoteNotification(m) => (3, mon::ref_encode(m, false), -1),
+                bmp::PeerDownReason::RemoteUnexpected => (4, vec![], -1),
+                bmp::PeerDownReason::Deconfigured => (5, vec![], -1),
+            };
+            let m = bmp::Message::PeerDown {
+                header: pph_of(&l[2]),
+                reason,
+            };
+            let mut buf = bytes::BytesMut::new();
+            codec.encode(&m, &mut buf).expect("verif: bmp encode");
+            Val::L(vec![Val::from_bytes(&buf), Val::from_bytes(&blob), Val::n(code as u8), Val::I(fsm)])
+        }
+        5 => {
+            // [5, [peer_addr, peer_asn, peer_id], family, addpath, entry, [] | [attrs], nexthop, timestamp]
+            let p = l[1].list();
+            let change = AdjRibOutChange {
+                peer_addr: mon::ip_of(&p[0]),
+                peer_asn: p[1].u32(),
+                peer_id: p[2].u32(),
+                family: mon::fam_of(&l[2]),
+                addpath: l[3].bool(),
+                nlri: mon::entries_of(&Val::L(vec![l[4].clone()])).remove(0),
+                attrs: l[5].list().first().map(mon::attrs_of),
+                nexthop: mon::nexthop_of(&l[6]),
+                timestamp: l[7].u32(),
+            };
+            mon::msg_val(&adj_rib_out_to_bmp_update(&change))
+        }
         t => panic!("verif: bad case tag {}", t),
     }
 }
